@@ -247,7 +247,7 @@ func (s *Schema) legalPatch(name string, p *PVal, directives []string, path []st
 		if specExcludes(directives, fp) {
 			return "excluded", false
 		}
-		if t.s && !s.valid(t.f.Type, t.v) {
+		if t.s && !s.validUnder(t.f.Type, t.v, directives, fp) {
 			return "invalid-set-value", false
 		}
 	}
@@ -370,7 +370,7 @@ func (s *Schema) allValid(name string, p *PVal) bool {
 	var ts []touch
 	s.touches(name, p, 0, &ts)
 	for _, t := range ts {
-		if t.s && !s.valid(t.f.Type, t.v) {
+		if t.s && !s.validUnder(t.f.Type, t.v, directives, fp) {
 			return false
 		}
 		if t.nested != nil && !s.allValid(s.recordOf(t.f.Type), t.nested) {
